@@ -341,6 +341,33 @@ def run(ctx: Ctx):
                f"the reported reward is env.get_reward(<freshly reset state>, actions); {len(acc_envs)} envs compute their objective from cells that _step accumulates "
                f"({', '.join(f'{k}: {v[0]}' for k, v in sorted(acc_envs.items()))}): for those the reset state holds no objective and the reported reward is not the objective of the returned actions",
                construct=f"{cn}._inner:reward-from-reset-state")
+    # ---- g: whose objective is reported.  Either the reward is recomputed by the evaluation env (`self.env.get_reward`), or it is
+    #         the rollout's own reward -- then the rollout must have been made ON the evaluation env: a policy called without
+    #         `env=` builds a default-configured env from its env_name, whose objective may differ (SVRP tech_costs, mTSP cost_type ...)
+    import ast as _ast
+    n_eval = 0
+    for cn in ("GreedyEval", "AugmentationEval", "SamplingEval", "GreedyMultiStartEval", "GreedyMultiStartAugmentEval"):
+        fi = ctx.repo.get_function(EV, f"{cn}._inner")
+        ctx.fn(fi)
+        pol = fi.params()[1]
+        calls = [c for c in _ast.walk(fi.node) if isinstance(c, _ast.Call) and isinstance(c.func, _ast.Name) and c.func.id == pol]
+        if len(calls) != 1:
+            raise AnalysisError(f"{cn}._inner: expected one policy call, found {len(calls)}")
+        kw = {k.arg: k.value for k in calls[0].keywords if k.arg}
+        on_eval_env = "env" in kw and _ast.unparse(kw["env"]) == "self.env"
+        ite = vg.Interp(ctx.repo, fi.cls, inline_policy=lambda f, a: False)
+        fre = ite.run_function(fi)
+        ret = fre.ret
+        items = ret.items if isinstance(ret, vg.Tup) else (list(ret.args) if isinstance(ret, vg.S) and ret.op == "tuple" else [])
+        if len(items) != 2 or not isinstance(items[1], vg.S):
+            raise AnalysisError(f"{cn}._inner: does not return (actions, rewards)")
+        recomputed = any(n.op == "meth" and n.args[1] == "get_reward" and isinstance(n.args[0], vg.S) and n.args[0].op == "selfattr" and n.args[0].args[0] == "env" for n in vg.walk(items[1]))
+        n_eval += 1
+        ok = recomputed or on_eval_env
+        ctx.ob("C15.g", f"{cn}._inner:reward-of-the-evaluation-env", ok, fi.loc,
+               f"reported reward recomputed by self.env.get_reward: {recomputed}; rollout made on the evaluation env (policy(..., env=self.env)): {on_eval_env}" +
+               ("" if ok else " -- the reward is the one of a default-configured env built by the policy, not the objective of the returned actions on the evaluated env"),
+               construct=f"{cn}._inner:reward-env")
     # shared rules (C12 factor/best-of, C17 loader order) are run again under this property
     from . import C12, C17
     n0 = len(ctx.obligations)
